@@ -38,7 +38,7 @@ def describe(pte, table):
             break
     else:
         text = 'Undefined'
-    if is_reported_error(pte) and text != 'Undefined':
+    if is_reported_error(pte):          # 'exactly when the PTE is a reported error', whatever the description
         text += ' - PEL entry created'
     return text
 
